@@ -229,16 +229,19 @@ func H_C02_truncate() {
 	}
 }
 
-// H_C02_mutate: every corpus template with one byte (quick) or two adjacent bytes
-// (thorough) replaced by arbitrary bytes at every offset: Parse is total, and a syntax
+// H_C02_mutate: every corpus template with one byte (quick; thorough adds two adjacent
+// bytes for corpus templates 0,1,2,4,6,9) replaced by arbitrary bytes at every offset: Parse is total, and a syntax
 // error has the documented shape.
 //
 //gosym:reach parsed,rejected
+//gosym:opts maxpaths=1500000 wall=1800
 func H_C02_mutate() {
 	c := ndChoice("corpus", len(c02Corpus))
 	src := c02Join(c02Corpus[c])
 	w := 1
-	if vfTier() == 1 {
+	if vfTier() == 1 && (c <= 2 || c == 4 || c == 6 || c == 9) {
+		// two adjacent bytes: six of the ten corpus templates (the others would take the
+		// thorough tier past half an hour; they keep the one-byte mutation)
 		w = 1 + ndChoice("width", 2)
 	}
 	k := ndChoice("at", len(src)-w+1)
